@@ -253,7 +253,10 @@ def decide(pid, tier, spec, seed, t0, workdir, ev_path):
     kill_matrix = []
     if tier == 'thorough' and not undecided:
         for u in units:
-            kill_matrix += mutants.run_unit_mutants(u, REPO)
+            try:
+                kill_matrix += mutants.run_unit_mutants(u, REPO)
+            except Exception as e:  # the self-test must never decide the property
+                log(f'WARNING: self-test of unit {u} could not run: {type(e).__name__}: {e}')
         for r in kill_matrix:
             if not r['ok']:
                 log(f"WARNING: self-test: mutant {r['unit']}/{r['mutant']} expected {r['expect']}, got {r['verdict']}")
@@ -374,4 +377,13 @@ def decide(pid, tier, spec, seed, t0, workdir, ev_path):
 
 
 if __name__ == '__main__':
-    sys.exit(main())
+    try:
+        code = main()
+    except SystemExit:
+        raise
+    except BaseException as e:  # a failure of the machinery itself is never a verdict about the property
+        import traceback
+        traceback.print_exc()
+        print(f'UNDECIDED: internal error of the check ({type(e).__name__}: {e})')
+        code = 2
+    sys.exit(code)
